@@ -273,7 +273,7 @@ func runC05(c *core.Ctx) {
 								}
 								atomic.AddInt64(&states, 1)
 								local = append(local, node{path})
-								if budget.Timers == 0 && (!quick || bi != 1) {
+								if budget.Timers == 0 && (!quick || bi == 0 || bi == 3) {
 									// one representative path per model state goes to the real engines
 									e2eMuLocal.Lock()
 									e2eItems = append(e2eItems, e2eItem{File: file, Path: path, Budget: budget})
@@ -320,5 +320,9 @@ func runC05(c *core.Ctx) {
 			c.Sample(map[string]any{"store": store, "budget": budget, "states": states, "transitions": transitions, "depth_completed": depthDone})
 		}
 	}
-	runC05E2E(c, e2eItems)
+	e2eBudget := 4 * time.Minute
+	if !quick {
+		e2eBudget = 25 * time.Minute
+	}
+	runC05E2E(c, e2eItems, e2eBudget)
 }
